@@ -179,10 +179,14 @@ class Evaluator:
                 if not all(known):
                     return False
                 return UNKNOWN if len(known) != len(vals) else True
-            if isinstance(n.func, ast.Name) and n.func.id in ("len", "str", "tuple", "list", "sorted", "set", "bool") and len(args) == 1:
+            if isinstance(n.func, ast.Name) and n.func.id in ("len", "str", "tuple", "list", "sorted", "set", "frozenset", "bool") and len(args) == 1:
                 if args[0] is UNKNOWN:
                     return UNKNOWN
-                return {"len": len, "str": str, "tuple": tuple, "list": list, "sorted": sorted, "set": set, "bool": bool}[n.func.id](args[0])
+                try:
+                    return {"len": len, "str": str, "tuple": tuple, "list": list, "sorted": sorted, "set": set, "frozenset": frozenset,
+                            "bool": bool}[n.func.id](args[0])
+                except TypeError:
+                    return UNKNOWN
             if isinstance(n.func, ast.Attribute):
                 f = self.ev(n.func)
                 if callable(f) and all(a is not UNKNOWN for a in args):
